@@ -155,6 +155,10 @@ def make_stub(contract):
             for key, (arr, ep) in keep.items():
                 c.heap.st.arrays[key] = arr
                 c.heap.st.key_epoch[key] = ep
+            # opaque user code goes through public APIs: class invariants of the objects in focus
+            # still hold afterwards (assumption listed with every world-stub)
+            for o in getattr(c, "focus_objects", ()):
+                check_invariants(c, o, "after-opaque-call", assume=True)
         elif isinstance(selfv, ObjProxy):
             mods = contract.modifies
             if mods is None:
@@ -309,6 +313,7 @@ def run_path(contract, c, state):
     if contract.focus is not None:
         focus.extend(contract.focus(s))
     s.focus = focus
+    c.focus_objects = focus
     if contract.inv:
         for o in focus:
             if contract.kind == "ctor" and o is selfv:
